@@ -15,3 +15,15 @@ pub fn close(a: f64, b: f64) -> bool {
     }
     (a - b).abs() <= 1e-9 * 1f64.max(a.abs()).max(b.abs())
 }
+
+/// purely relative comparison for quantities that scale with the weights (distances, path weights,
+/// closeness): |a-b| <= 1e-9 * max(|a|,|b|). `close` would hide every error on graphs with tiny weights.
+pub fn close_rel(a: f64, b: f64) -> bool {
+    if a.is_nan() || b.is_nan() {
+        return a.is_nan() && b.is_nan();
+    }
+    if a == b {
+        return true;
+    }
+    (a - b).abs() <= 1e-9 * a.abs().max(b.abs())
+}
